@@ -281,6 +281,46 @@ MoveAssignFromMemberOut(s, t, out) ==
                 MoveEffM(s, h[t], out).hn, MoveEffM(s, h[t], out).mn, MoveEffM(s, h[t], out).d)
 MoveAssignFromMember(s, t) == \E out \in Outs("ma") : MoveAssignFromMemberOut(s, t, out)
 
+\* IntrusivePtr<Base> s(std::move(obj(t).next)): the move constructor with a source inside an object (kind "mc")
+MoveCtorFromMemberOut(s, t, out) ==
+  /\ CanCopyCtorFromMember(s, t)
+  /\ out \in Admitted("mc")
+  /\ LET x == h[t] IN
+       MemberStep("MoveCtorFromMember", [s |-> s, t |-> t], MCls(s, t), [h EXCEPT ![s] = m[x]],
+                  IF out = "release" THEN [m EXCEPT ![x] = Null] ELSE m,
+                  IF out = "release" THEN Zero ELSE D(m[x], Null))
+MoveCtorFromMember(s, t) == \E out \in Outs("mc") : MoveCtorFromMemberOut(s, t, out)
+
+\* x.next = x.next->next: unlink the successor from a chain.  The DESTINATION is a member handle and the source is
+\* the member of the object the destination designates: the assignment may release that object (and with it the
+\* source).  z = m[x] is the successor, m[z] its successor; z = x (self loop) makes it a self-assignment.
+CanUnlink(x) == x \in Objs /\ Alive(x) /\ HasMember(x) /\ ExternallyHeld(x) /\ m[x] \in Objs /\ HasMember(m[x])
+UCls(x) == LET z == m[x] IN
+           "next=" \o (IF z = x THEN "self" ELSE "obj") \o ",nextnext=" \o
+           (IF m[z] = Null THEN "null" ELSE IF m[z] = x THEN "back" ELSE IF m[z] = z THEN "self" ELSE "obj") \o
+           (IF z # x /\ count[z] = 1 THEN ",last-ref" ELSE "")
+UnlinkNext(x) ==        \* copy assignment
+  /\ CanUnlink(x)
+  /\ LET z == m[x] IN
+       MemberStep("UnlinkNext", [o |-> x], UCls(x), h, [m EXCEPT ![x] = m[z]], D(m[z], z))
+UnlinkNextMoveOut(x, out) ==   \* x.next = std::move(x.next->next); with z = x a self-move of the member (kind "sm")
+  /\ CanUnlink(x)
+  /\ LET z == m[x] IN
+       IF z = x
+       THEN /\ out \in Admitted("sm")
+            /\ MemberStep("UnlinkNextMove", [o |-> x], UCls(x), h,
+                          IF out = "release" THEN [m EXCEPT ![x] = Null] ELSE m,
+                          IF out = "release" THEN D(Null, x) ELSE Zero)
+       ELSE /\ out \in Admitted("ma")
+            /\ MemberStep("UnlinkNextMove", [o |-> x], UCls(x), h,
+                          CASE out = "release" -> [m EXCEPT ![x] = m[z], ![z] = Null]
+                            [] out = "retain"  -> [m EXCEPT ![x] = m[z]]
+                            [] out = "swap"    -> [m EXCEPT ![x] = m[z], ![z] = z],
+                          CASE out = "release" -> D(Null, z)
+                            [] out = "retain"  -> D(m[z], z)
+                            [] out = "swap"    -> Zero)
+UnlinkNextMove(x) == \E out \in {"release", "retain", "swap"} : UnlinkNextMoveOut(x, out)
+
 -------------------------------------------------------------------------------
 \* Queries
 CanBool(s) == Constructed(s)
@@ -302,14 +342,21 @@ Arrow(s) ==         \* operator-> and operator*: the object the handle designate
 \* The class names the static types and, for a Derived handle against a Base / const Base one, whether the
 \* two handles hold different addresses for the same object ("adjusted").
 Adjusted(s, t) == Layout # "single" /\ ((SlotType[s] = "Derived") # (SlotType[t] = "Derived"))
-CanCompare(s, t) == Constructed(s) /\ Constructed(t) /\ ~(h[s] = Null /\ h[t] = Null)
+\*   antisym     never both a < b and b < a
+\*   consistent  a != b is the negation of a == b
+\* For two EMPTY handles only `consistent` is constrained (they point at no object: whether they compare equal is
+\* not stated).
+CanCompare(s, t) == Constructed(s) /\ Constructed(t)
 Compare(s, t) ==
   /\ CanCompare(s, t)
   /\ Query("Compare", [s |-> s, t |-> t],
            "types=" \o (IF SlotType[s] = SlotType[t] THEN "same" ELSE SlotType[s] \o "/" \o SlotType[t]) \o "," \o
-           (IF h[s] = h[t] THEN "same-object" ELSE IF h[s] = Null \/ h[t] = Null THEN "one-empty" ELSE "different-objects") \o
+           (IF h[s] = Null /\ h[t] = Null THEN "both-empty"
+            ELSE IF h[s] = h[t] THEN "same-object" ELSE IF h[s] = Null \/ h[t] = Null THEN "one-empty" ELSE "different-objects") \o
            (IF Adjusted(s, t) THEN ",adjusted" ELSE ""),
-           [eq |-> h[s] = h[t], ne |-> h[s] # h[t], unordered |-> h[s] = h[t], order |-> "as-base"])
+           IF h[s] = Null /\ h[t] = Null THEN [consistent |-> TRUE]
+           ELSE [eq |-> h[s] = h[t], ne |-> h[s] # h[t], unordered |-> h[s] = h[t], order |-> "as-base",
+                 antisym |-> TRUE, consistent |-> TRUE])
 
 -------------------------------------------------------------------------------
 Init ==
@@ -324,8 +371,8 @@ Next ==
   \/ \E s \in Slots : DefaultCtor(s) \/ Dtor(s) \/ Bool(s) \/ Arrow(s)
   \/ \E s \in Slots, v \in Objs \cup {Null} : RawCtor(s, v) \/ RawAssign(s, v)
   \/ \E s, t \in Slots : CopyCtor(s, t) \/ MoveCtor(s, t) \/ CopyAssign(s, t) \/ MoveAssign(s, t) \/ Compare(s, t)
-  \/ \E x \in Objs : ClearMember(x) \/ \E t \in Slots : SetMember(x, t)
-  \/ \E s, t \in Slots : CopyCtorFromMember(s, t) \/ CopyAssignFromMember(s, t) \/ MoveAssignFromMember(s, t)
+  \/ \E x \in Objs : ClearMember(x) \/ UnlinkNext(x) \/ UnlinkNextMove(x) \/ \E t \in Slots : SetMember(x, t)
+  \/ \E s, t \in Slots : CopyCtorFromMember(s, t) \/ MoveCtorFromMember(s, t) \/ CopyAssignFromMember(s, t) \/ MoveAssignFromMember(s, t)
 
 Spec == Init /\ [][Next]_vars
 
@@ -360,7 +407,7 @@ DiesAtLastRelease ==
           /\ st[o] = "dead" => st'[o] = "dead" \/ last'.a = "New"]_vars
 \* handles compare equal exactly when they designate the same object
 EqualIffSameObject ==
-  [][last'.a = "Compare" =>
+  [][(last'.a = "Compare" /\ "eq" \in DOMAIN last'.exp.ret) =>
        /\ last'.exp.ret.eq = (h[last'.arg.s] = h[last'.arg.t])
        /\ last'.exp.ret.ne = ~last'.exp.ret.eq
        /\ UNCHANGED <<st, count, creator, explicit, h, m>>]_vars
